@@ -428,6 +428,14 @@ func Mirror(tx *bbolt.Tx, s *Stores) []Violation {
 	tickets := subBucketNames(rawPath(tx, rootBucket, StTickets))
 	groups := subBucketNames(rawPath(tx, rootBucket, StGroups))
 	memos := subBucketNames(rawPath(tx, rootBucket, StMemos))
+	reviews := subBucketNames(rawPath(tx, rootBucket, StReviews))
+	folders := subBucketNames(rawPath(tx, rootBucket, StFolders))
+	var staffIds []string // the people that have staff data: the entities of the staff view
+	for _, id := range people {
+		if rawPath(tx, rootBucket, StPeople, id, StStaff) != nil {
+			staffIds = append(staffIds, id)
+		}
+	}
 
 	// --- unique + set indexes (C03)
 	holders := func(store string, ids []string, field string, sub ...string) map[string][]string {
@@ -443,6 +451,7 @@ func Mirror(tx *bbolt.Tx, s *Stores) []Violation {
 	m.checkUnique("depts.name", []string{rootBucket, boltz.IndexesBucket, StDepts, "name"}, holders(StDepts, depts, "name"), func(v []byte) []byte { return s.Depts.idxName.Read(tx, v) })
 	m.checkUnique("people.name", []string{rootBucket, boltz.IndexesBucket, StPeople, "name"}, holders(StPeople, people, "name"), func(v []byte) []byte { return s.People.idxName.Read(tx, v) })
 	m.checkUnique("people.nick", []string{rootBucket, boltz.IndexesBucket, StPeople, "nick"}, holders(StPeople, people, "nick"), func(v []byte) []byte { return s.People.idxNick.Read(tx, v) })
+	m.checkUnique("px.memo", []string{rootBucket, boltz.IndexesBucket, StPeople, "memo"}, holders(StPeople, people, "memo", StPX), func(v []byte) []byte { return s.PX.idxMemo.Read(tx, v) })
 	m.checkUnique("staff.badgeNo", []string{rootBucket, boltz.IndexesBucket, StPeople, "badgeNo"}, holders(StPeople, people, "badgeNo", StStaff), func(v []byte) []byte { return s.Staff.idxBadgeNo.Read(tx, v) })
 	roleHolders := map[string][]string{}
 	for _, id := range people {
@@ -467,6 +476,8 @@ func Mirror(tx *bbolt.Tx, s *Stores) []Violation {
 	m.checkBackrefs("notes.about->people", StPeople, "", people, refsOf(StNotes, notes, "about"), false)
 	m.checkBackrefs("tickets.assignee->people", StPeople, "", people, refsOf(StTickets, tickets, "assignee"), false)
 	m.checkBackrefs("memos.topic->groups", StGroups, "", groups, refsOf(StMemos, memos, "topic"), false)
+	m.checkBackrefs("folders.parent->folders", StFolders, "", folders, refsOf(StFolders, folders, "parent"), false)
+	m.checkBackrefs("reviews.reviewer->staff", StStaff, "", staffIds, refsOf(StReviews, reviews, "reviewer"), false)
 	for _, id := range people {
 		if v, _ := rawString(rawPath(tx, rootBucket, StPeople, id), "dept"); v == "" {
 			m.bad("C04", "fk-null-nonnullable:people.dept", "person %q stored with empty non-nullable dept", id)
@@ -671,7 +682,8 @@ func CompareModel(tx *bbolt.Tx, s *Stores, m *Model, universe map[string][]strin
 		StDepts: subBucketNames(rawPath(tx, rootBucket, StDepts)), StPeople: subBucketNames(rawPath(tx, rootBucket, StPeople)),
 		StBadges: subBucketNames(rawPath(tx, rootBucket, StBadges)), StNotes: subBucketNames(rawPath(tx, rootBucket, StNotes)),
 		StTickets: subBucketNames(rawPath(tx, rootBucket, StTickets)), StGroups: subBucketNames(rawPath(tx, rootBucket, StGroups)),
-		StMemos: subBucketNames(rawPath(tx, rootBucket, StMemos)),
+		StMemos: subBucketNames(rawPath(tx, rootBucket, StMemos)), StReviews: subBucketNames(rawPath(tx, rootBucket, StReviews)),
+		StFolders: subBucketNames(rawPath(tx, rootBucket, StFolders)),
 	}
 	modelIds := map[string][]string{}
 	for id := range m.Depts {
@@ -695,12 +707,18 @@ func CompareModel(tx *bbolt.Tx, s *Stores, m *Model, universe map[string][]strin
 	for id := range m.Memos {
 		modelIds[StMemos] = append(modelIds[StMemos], id)
 	}
+	for id := range m.Reviews {
+		modelIds[StReviews] = append(modelIds[StReviews], id)
+	}
+	for id := range m.Folders {
+		modelIds[StFolders] = append(modelIds[StFolders], id)
+	}
 	presenceProps := map[string][]string{
 		StDepts: {"C04", "C06", "C07"}, StPeople: {"C04", "C06", "C07", "C15"}, StBadges: {"C04", "C06", "C07"},
 		StNotes: {"C04", "C06", "C07"}, StTickets: {"C04", "C06", "C07"}, StGroups: {"C05", "C06", "C07"},
-		StMemos: {"C04", "C06", "C07"},
+		StMemos: {"C04", "C06", "C07"}, StReviews: {"C04", "C06", "C07"}, StFolders: {"C04", "C06", "C07"},
 	}
-	for _, st := range []string{StDepts, StPeople, StBadges, StNotes, StTickets, StGroups, StMemos} {
+	for _, st := range []string{StDepts, StPeople, StBadges, StNotes, StTickets, StGroups, StMemos, StReviews, StFolders} {
 		if !sameSet(present[st], modelIds[st]) {
 			a := append([]string(nil), present[st]...)
 			b := append([]string(nil), modelIds[st]...)
@@ -742,7 +760,7 @@ func CompareModel(tx *bbolt.Tx, s *Stores, m *Model, universe map[string][]strin
 					} else {
 						props = []string{"C06", "C07", "C15"}
 					}
-				case StBadges, StNotes, StTickets, StMemos:
+				case StBadges, StNotes, StTickets, StMemos, StReviews, StFolders:
 					props = []string{"C04", "C07"}
 				case StDepts:
 					props = []string{"C03", "C07"}
